@@ -173,6 +173,20 @@ class Effects:
             u = call.get("_u")
             fs = [f for f in self.prog.funcs.values() if f.unit is u and f.kind == "FunctionDecl" and f.name == rd.get("name")
                   and f.type == (rd.get("type") or {}).get("qualType")]
+        if d is not None and not fs and d.get("kind") in ("CXXMethodDecl", "FunctionDecl") and "inner" not in d:
+            # an instantiation of a member / function template defined out of line: the call names a body-less declaration of the
+            # specialisation (no mangled name, context lost); the instantiated definition is indexed under the template
+            nm, ty = d.get("name"), qt(d)
+            byname = getattr(self, "_by_name", None)
+            if byname is None:
+                byname = self._by_name = {}
+                for f in self.prog.funcs.values():
+                    byname.setdefault(f.name, []).append(f)
+            cands = [f for f in byname.get(nm, []) if f.type == ty and f.body is not None]
+            if len(cands) == 1:
+                fs = cands
+        if fs:
+            pass
         elif ci.get("ctor_type"):
             t = ci["ctor_type"]
             cname = t.split("::")[-1]
